@@ -45,7 +45,9 @@ PREFIXES = [("mygateway1-out", "mygateway1-in"), ("a", "b"), ("a/b", "c/d"), ("a
             ("site/gw-out/", "site/gw-in/"), ("/lead-out", "/lead-in"), ("a//b", "c//d"), ("/", "//"),
             ("home%2Fattic-out", "home%2Fattic-in"), ("tank 50%", "tank 51%"), ("a%%b-out", "a%%b-in"), ("%s/%d", "%(x)s"),
             ("{}", "{0}/{in_prefix}"), ("{out", "in}"), ("$SYS-like/$out", "$in"), ("back\\slash", "quote'\"in"),
-            (" out ", " in "), ("out\t", "in\n")]
+            (" out ", " in "), ("out\t", "in\n"),
+            # the empty prefix is a prefix too (topics then start with '/'): "" is falsy, `x or default` replaces it
+            ("", "only-out"), ("only-in", ""), ("", "")]
 
 
 def hooked_transport(in_prefix: str, out_prefix: str):
@@ -754,6 +756,9 @@ def run_case(ctx, case: dict) -> None:
 def run(ctx) -> None:
     rng = ctx.rng
     payloads = [p for p in gens.PAYLOAD_POOL if spec.payload_ok_for_roundtrip(p)]
+    # an MQTT payload is free text: line feeds INSIDE it are legal here (the stream transports could not carry them)
+    # (not at the END: trailing whitespace belongs to the line terminator, as in C01)
+    payloads += ["line1\nline2", "\nb", "Temp: 21;Hum: 40\nDoor: open", "x\r\ny", "\n\n;x"]
     with Reach(ANCHORS) as reach:
         heads = list(gens.wellformed_messages_small())
         count = 0
